@@ -66,7 +66,8 @@ def brauer(dim: int, p_val: int) -> np.ndarray:
     # The Brauer states are computed from perfect matchings of the complete graph. So compute all
     # perfect matchings first.
     phi = tensor(max_entangled(dim, False, False), p_val)
-    matchings = perfect_matchings(2 * p_val)
+    # (For two parties there is a single matching, which `perfect_matchings` returns as a 1-D array.)
+    matchings = np.atleast_2d(perfect_matchings(2 * p_val))
     num_matchings = matchings.shape[0]
     state = np.zeros((dim ** (2 * p_val), num_matchings))
 
